@@ -7,7 +7,7 @@ from .. import terms as tm
 from ..loader import AnalysisError
 from ..report import rule
 from ..terms import App, Attr, Cat, Comp, Idx, Lst, Poly, PW, Range, Rep, Slc, Sym
-from .common import calls_to, unparse
+from .common import bind_args, calls_to, unparse
 from .plumb import plumb
 
 PAD = "data_preparation.pad_missing_labels"
@@ -64,7 +64,9 @@ def r2(ctx):
     split = calls_to(ana, fe, "fast_ticc.front_end._split_combined_result")
     if not split:
         raise AnalysisError("ticc_joint_labels does not call _split_combined_result")
-    sizes = bf.term(split[0].node.args[1]) if len(split[0].node.args) > 1 else None
+    _sf = ana.func("front_end._split_combined_result")
+    _a = bind_args(_sf, split[0].node).get(_sf.params[1])
+    sizes = bf.term(_a) if _a is not None else None
     ok = isinstance(sizes, Comp) and not sizes.conds
     if ok:
         ok = False
